@@ -705,6 +705,9 @@ func zeroExtensionStore(st *ssa.Store) bool {
 	if !ok || typeName(pt.Elem()) != "extension" {
 		return false
 	}
+	if _, isStruct := pt.Elem().Underlying().(*types.Struct); !isStruct {
+		return false // a store of nil into the *pointer* field drops the shared state instead of resetting it
+	}
 	if k, ok := st.Val.(*ssa.Const); ok && k.Value == nil {
 		return true
 	}
